@@ -259,7 +259,12 @@ func runC18(c *Ctx) {
 			return
 		}
 		if cs.Kind == "html" {
+			savedStderr, savedStdout := os.Stderr, os.Stdout
+			if dn, err := os.OpenFile(os.DevNull, os.O_WRONLY, 0); err == nil {
+				os.Stderr, os.Stdout = dn, dn
+			}
 			c18EvalHTML(c, &cs)
+			os.Stderr, os.Stdout = savedStderr, savedStdout
 		} else {
 			c18Eval(c, &cs, c18Exec(c, tmp, 0, &cs))
 		}
@@ -363,6 +368,13 @@ func runC18(c *Ctx) {
 		c18Eval(c, cs, c18Exec(c, tmp, 0, cs))
 	}
 	// --- stream 5: web UI pages ---
+	// (the disasm handler prints "stat <mapping file>: no such file" to the process's
+	// stdout (report.go symbolsFromBinaries), with the raw bytes of the name; keep our own stderr clean)
+	savedStderr, savedStdout := os.Stderr, os.Stdout
+	if dn, err := os.OpenFile(os.DevNull, os.O_WRONLY, 0); err == nil {
+		os.Stderr, os.Stdout = dn, dn
+		defer func() { os.Stderr, os.Stdout = savedStderr, savedStdout; dn.Close() }()
+	}
 	for i := 0; i < 78*c.Scale; i++ {
 		n++
 		hot := c18Positions[i%len(c18Positions)]
@@ -370,6 +382,7 @@ func runC18(c *Ctx) {
 		cs.Prof = c18GenHTMLProf(r.Fork(), hot, cs.Marker)
 		c18EvalHTML(c, cs)
 	}
+	os.Stderr, os.Stdout = savedStderr, savedStdout
 
 	wg.Wait()
 	nerr := 0
